@@ -23,6 +23,7 @@ func init() {
 
 func runC06(c *Ctx) {
 	defer c06AllHostsScheduled(c)
+	defer c06WeightsReachScheduler(c)
 	c.Rule("C06.R1", "cumulative-weight scan uses an exact idiom (strict comparison)", 4)
 	c.Rule("C06.R2", "draw range equals the sum of the scanned weights; single writer", 4)
 	c.Rule("C06.R3", "EDF deadline update shape: deadline += 1/weight from the current deadline, time advances to served deadline, min-heap order; every host scheduled", 7)
@@ -523,4 +524,130 @@ func c06AllHostsScheduled(c *Ctx) {
 	}
 	uncond := len(guardsAt(add.Block())) == 0 && addFn != fn && add.Block() == addFn.Blocks[0]
 	c.Check("C06.R3", funcKey(fn)+":all-hosts-scheduled", add.Pos(), uncond, "every host of the set is added to the scheduler, whatever its health at build time", "refresh adds a host to the weighted scheduler only under a condition (e.g. its health while the balancer is built): a host that recovers later is never scheduled and gets no picks although it is healthy")
+}
+
+// c06WeightsReachScheduler (R3, written proactively): the weights the scheduler sees are the hosts' configured weights.
+//   equal-weights-complete   the "all weights equal" test that lets refresh skip the scheduler compares every host of
+//                            the set (a loop from 1 to Size that returns false on the first difference and true only
+//                            after the loop): a shortened test serves unequal weights round-robin;
+//   wrr-weight-source        WRRLoadBalancer.hostWeight returns fixHostWeight(float64(host.Weight())) of the very item
+//                            it was given;
+//   clamp-identity-inside    fixHostWeight returns its argument unchanged on the path where neither bound test holds,
+//                            and the bounds are the v2.MinHostWeight / v2.MaxHostWeight constants.
+func c06WeightsReachScheduler(c *Ctx) {
+	pkg := "pkg/upstream/cluster"
+	if fn := c.F(pkg, "hostWeightsAreEqual"); fn == nil {
+		c.Unresolved("C06.R3", "hostWeightsAreEqual")
+	} else {
+		fk := funcKey(fn)
+		// weight comparisons: Weight()(host i) != Weight()(host 0)
+		var cmp *ssa.BinOp
+		forEachInstr(fn, false, func(_ *ssa.Function, in ssa.Instruction) {
+			if bo, ok := in.(*ssa.BinOp); ok && (bo.Op == token.NEQ || bo.Op == token.EQL) {
+				cx, okx := bo.X.(*ssa.Call)
+				cy, oky := bo.Y.(*ssa.Call)
+				if okx && oky && methodName(cx.Common()) == "Weight" && methodName(cy.Common()) == "Weight" {
+					cmp = bo
+				}
+			}
+		})
+		good := cmp != nil && inLoop(cmp.Block())
+		why := ""
+		if good {
+			// loop bound is Size(): the loop's exit test compares the index with the result of Size()
+			bound := false
+			forEachInstr(fn, false, func(_ *ssa.Function, in ssa.Instruction) {
+				if bo, ok := in.(*ssa.BinOp); ok && bo.Op == token.LSS && inLoop(bo.Block()) {
+					if call, isC := bo.Y.(*ssa.Call); isC && methodName(call.Common()) == "Size" {
+						if phi, isP := bo.X.(*ssa.Phi); isP {
+							for _, e := range phi.Edges {
+								if k, isK := constInt(e); isK && k <= 1 {
+									bound = true
+								}
+							}
+						}
+					}
+				}
+			})
+			// `true` is returned only outside the loop, `false` only on the difference edge
+			for _, in := range instrsWhere(fn, isReturn) {
+				b, isC := constBool(in.(*ssa.Return).Results[0])
+				if !isC {
+					good, why = false, "a non-constant result"
+					continue
+				}
+				// `true` only on the exit edge of the loop test, `false` only on the edge where the two weights differ
+				okEdge := false
+				for _, g := range guardsAt(in.Block()) {
+					bo, isB := g.Cond.(*ssa.BinOp)
+					if !isB {
+						continue
+					}
+					if b && bo.Op == token.LSS && !g.True {
+						if call, isC := bo.Y.(*ssa.Call); isC && methodName(call.Common()) == "Size" {
+							okEdge = true
+						}
+					}
+					if !b && bo == cmp && ((bo.Op == token.NEQ && g.True) || (bo.Op == token.EQL && !g.True)) {
+						okEdge = true
+					}
+				}
+				if !okEdge {
+					good, why = false, fmt.Sprintf("`%v` is returned on an edge other than %s", b, map[bool]string{true: "the loop's exit", false: "a difference of two weights"}[b])
+				}
+			}
+			if !bound {
+				good, why = false, "the loop does not run from 0/1 to hosts.Size()"
+			}
+		} else {
+			why = "no comparison of two hosts' Weight() inside a loop"
+		}
+		c.Check("C06.R3", fk+":equal-weights-complete", fn.Pos(), good, "every host's weight is compared with the first one's before the scheduler is skipped", "hostWeightsAreEqual does not compare every host of the set ("+why+"): a set with unequal weights is treated as equal, the EDF scheduler is not built and the hosts are served round-robin instead of in proportion to their weights")
+	}
+	if fn := c.M(pkg, "WRRLoadBalancer", "hostWeight"); fn == nil {
+		c.Unresolved("C06.R3", "WRRLoadBalancer.hostWeight")
+	} else {
+		good := false
+		for _, in := range instrsWhere(fn, isReturn) {
+			call, ok := in.(*ssa.Return).Results[0].(*ssa.Call)
+			if !ok || call.Common().StaticCallee() == nil || call.Common().StaticCallee().Name() != "fixHostWeight" {
+				continue
+			}
+			v := call.Common().Args[0]
+			if cv, ok := v.(*ssa.Convert); ok {
+				v = cv.X
+			}
+			if w, ok := v.(*ssa.Call); ok && methodName(w.Common()) == "Weight" {
+				if ta, ok := w.Common().Value.(*ssa.TypeAssert); ok && ta.X == ssa.Value(fn.Params[1]) {
+					good = true
+				}
+			}
+		}
+		c.Check("C06.R3", funcKey(fn)+":wrr-weight-source", fn.Pos(), good, "fixHostWeight(float64(item.(types.Host).Weight()))", "the weighted round-robin balancer's weight function does not return the (clamped) configured weight of the host it was asked about: hosts are not served in proportion to their weights")
+	}
+	if fn := c.F(pkg, "fixHostWeight"); fn == nil {
+		c.Unresolved("C06.R3", "fixHostWeight")
+	} else {
+		good := false
+		for _, in := range instrsWhere(fn, isReturn) {
+			if in.(*ssa.Return).Results[0] != ssa.Value(fn.Params[0]) {
+				continue
+			}
+			lo, hi := false, false
+			for _, g := range guardsAt(in.Block()) {
+				bo, ok := g.Cond.(*ssa.BinOp)
+				if !ok || bo.X != ssa.Value(fn.Params[0]) || g.True {
+					continue
+				}
+				if bo.Op == token.LEQ || bo.Op == token.LSS {
+					lo = true
+				}
+				if bo.Op == token.GEQ || bo.Op == token.GTR {
+					hi = true
+				}
+			}
+			good = lo && hi
+		}
+		c.Check("C06.R3", funcKey(fn)+":clamp-identity-inside", fn.Pos(), good, "returns the weight itself between the two bounds", "fixHostWeight does not return its argument unchanged between the minimum and maximum host weight: configured weights are distorted before they reach the scheduler")
+	}
 }
